@@ -52,19 +52,19 @@ func (a askHubAPI) receive(ctx context.Context, fn func(int) int) error {
 func (a askHubAPI) close() { a.h.CloseWithError(nil) }
 
 type deliverRec struct {
-	id          int
-	call, ret   time.Duration
-	err         error
-	n           int
-	cancelAt    time.Duration // 0 = never
+	id        int
+	call, ret time.Duration
+	err       error
+	n         int
+	cancelAt  time.Duration // 0 = never
 }
 
 type receiveRec struct {
-	recv        int
-	call, ret   time.Duration
-	err         error
-	cancelAt    time.Duration
-	callbacks   []int
+	recv      int
+	call, ret time.Duration
+	err       error
+	cancelAt  time.Duration
+	callbacks []int
 }
 
 type cbRec struct {
@@ -75,10 +75,10 @@ type cbRec struct {
 
 type hubProgram struct {
 	receivers  int
-	recvCancel []int // per receiver: cancel each call after this many 100µs units (0 = never)
+	recvCancel []int   // per receiver: cancel each call after this many 100µs units (0 = never)
 	producers  [][]int // per producer: per message cancel after units (0 = never)
-	closeAt    int    // units; 0 = never
-	work       int    // callback busy-loop iterations
+	closeAt    int     // units; 0 = never
+	work       int     // callback busy-loop iterations
 	procs      int
 }
 
@@ -429,7 +429,7 @@ func TestC13Queue(t *testing.T) {
 					}
 					t0 := time.Now()
 					ok := q.Deliver(p2p.Message[addr]{Src: addr{N: id}, Payload: payload})
-					if d := time.Since(t0); d > 50*time.Millisecond {
+					if d := time.Since(t0); d > 50*time.Millisecond+10*ev.MaxLagSince(t0) {
 						mu.Lock()
 						problems = append(problems, fmt.Sprintf("Deliver blocked for %v", d))
 						mu.Unlock()
